@@ -34,11 +34,11 @@ type rec struct {
 	Replay  map[string]any
 	ord     int64
 	// value-clause records only (nil/false for the insertion clauses):
-	M      *Model // innermost model the symptom is attributed to
-	Base   int    // base of M the deviation was applied to
-	IsBase bool   // M's undeviated base value itself fails
-	Simple bool   // single deviation from M's all-minimal base (or a pair): never explained away
-	Ins    bool   // insertion clause record
+	M       *Model // innermost model the symptom is attributed to
+	Base    int    // base of M the deviation was applied to
+	IsBase  bool   // M's undeviated base value itself fails
+	Simple  bool   // single deviation from M's all-minimal base (or a pair): never explained away
+	Ins     bool   // insertion clause record
 	Top     *Model // model under test
 	TopBase int
 	NDev    int
@@ -72,6 +72,11 @@ type output struct {
 	Parses       int64          `json:"parses"`
 	Points       int64          `json:"insertion_points"`
 	Insertions   int64          `json:"insertions"`
+	SegParses    int64          `json:"segmented_parses"`
+	SegAllCuts   int64          `json:"values_with_every_2_segment_cut"`
+	SegDirected  int64          `json:"values_with_boundary_directed_cuts"`
+	Seg3         int64          `json:"values_with_every_3_segment_cut_pair"`
+	SegLimits    string         `json:"segmentation_bounds"`
 	Distinct     int            `json:"distinct_encodings"`
 	Phase1Done   bool           `json:"phase1_complete"`
 	Phase2Done   bool           `json:"phase2_complete"`
@@ -196,6 +201,7 @@ func (c *caseID) fail(clause, symptom, detail string, extra map[string]any) {
 type encoded struct {
 	v      reflect.Value // *struct, as left by the encoder (Init may rewrite an Interest name)
 	bytes  []byte
+	wire   enc.Wire // exactly what Encode() returned (signature slot filled)
 	failed bool
 }
 
@@ -256,6 +262,7 @@ func encodeCase(c *caseID) (res encoded) {
 		b = append(b, s...)
 	}
 	res.bytes = b
+	res.wire = wire
 	if uint64(len(b)) != announced {
 		res.failed = true
 		c.fail("C13.len", "encoded length differs from the announced length", fmt.Sprintf("encoder.length=%d, Encode() produced %d bytes: %s", announced, len(b), hexBrief(b)), map[string]any{"encoded": hexBrief(b)})
@@ -433,6 +440,7 @@ func evalCase(c *caseID, o evalOpts, st *modelStat) bool {
 	if failed || !o.insertions {
 		return failed
 	}
+	segmented(c, m, e, lv, o.thorough)
 	var pts []inspoint
 	points(lv, nil, &pts)
 	atomic.AddInt64(&nPoints, int64(len(pts)))
@@ -615,6 +623,9 @@ func main() {
 		out.Phase2Done = c2
 	}
 	out.Values, out.Pairs, out.Parses, out.Points, out.Insertions = nValues, nPairs, nParses, nPoints, nIns
+	out.SegParses, out.SegAllCuts, out.SegDirected, out.Seg3 = nSegParses, nSegAll, nSegDirected, nSeg3
+	a2, a3 := segLimits(thorough)
+	out.SegLimits = fmt.Sprintf("every 2-segment cut for encodings <= %d bytes, boundary-directed cuts (first/last 8 offsets, every element start/value-start/end of every nesting level and its two neighbours, the midpoint of every element value, every 1/16 of the length) above; every 3-segment cut pair for encodings <= %d bytes; plus the wire exactly as Encode() returned it", a2, a3)
 	out.Distinct = len(distinct)
 	out.Samples = samples
 	out.RawViolation = nRaw
@@ -769,4 +780,175 @@ func explain(all []*rec) []*rec {
 		}
 	}
 	return out
+}
+
+// ---- segmented readers -----------------------------------------------------------------------
+
+var nSegParses, nSegAll, nSegDirected, nSeg3 int64
+
+func segLimits(thorough bool) (all2, all3 int) {
+	if thorough {
+		return 4096, 48
+	}
+	return 512, 24
+}
+
+// offsets collects the absolute offsets of every element start / value start / end.
+func offsets(lv *level, base int, out map[int]bool) {
+	for _, e := range lv.elems {
+		out[base+e.start], out[base+e.val], out[base+e.end] = true, true, true
+		if e.sub != nil {
+			offsets(e.sub, base+e.val, out)
+		}
+	}
+}
+
+// mids adds the midpoint of every element value (one cut strictly inside each value).
+func mids(lv *level, base int, out map[int]bool) {
+	for _, e := range lv.elems {
+		if e.end-e.val >= 2 {
+			out[base+(e.val+e.end)/2] = true
+		}
+		if e.sub != nil {
+			mids(e.sub, base+e.val, out)
+		}
+	}
+}
+
+// locate names what a cut position falls into (for the violation key).
+func locate(lv *level, base, cut int) (where, kindS, pos string) {
+	prevKey := false
+	for _, e := range lv.elems {
+		isVal := prevKey
+		prevKey = e.mapKey
+		if cut <= base+e.start || cut >= base+e.end {
+			if cut == base+e.start {
+				return lv.model.ID(), "element", "cut at an element boundary"
+			}
+			continue
+		}
+		name, k := fmt.Sprintf("type %#x", e.typ), "unrecognised element"
+		if fs := lv.model.byType[e.typ]; len(fs) > 0 && !isVal {
+			name, k = fs[0].name, fs[0].td.k.String()
+			if fs[0].td.k == kSeq {
+				k = fs[0].td.elem.k.String()
+			}
+			if fs[0].td.k == kMap {
+				k = "map key (" + fs[0].td.key.k.String() + ")"
+			}
+		} else if isVal {
+			name, k = "map value", "map value"
+		}
+		switch {
+		case cut < base+e.val:
+			return lv.model.ID() + "." + name, k + " field", "cut inside the type/length header"
+		case cut == base+e.val:
+			return lv.model.ID() + "." + name, k + " field", "cut between header and value"
+		case e.sub != nil:
+			return locate(e.sub, base+e.val, cut)
+		}
+		return lv.model.ID() + "." + name, k + " field", "cut inside the value"
+	}
+	return lv.model.ID(), "element", "cut at an element boundary"
+}
+
+// segmented parses the same bytes through enc.WireReader: the wire exactly as Encode() returned
+// it, every 2-segment split (all cuts for short encodings, boundary-directed cuts for long
+// ones) and every 3-segment split of very short encodings. The result must be the value the
+// contiguous buffer gave (this is only run when C13.rt held).
+func segmented(c *caseID, m *Model, e encoded, lv *level, thorough bool) {
+	b := e.bytes
+	n := len(b)
+	parse := func(w enc.Wire, how string, cut int) {
+		atomic.AddInt64(&nSegParses, 1)
+		var got any
+		var err error
+		var pan string
+		func() {
+			defer func() {
+				if p := recover(); p != nil {
+					pan = normPanic(p)
+				}
+			}()
+			got, err = m.Parse(enc.NewWireReader(w), false)
+		}()
+		sy, de := "", ""
+		switch {
+		case pan != "":
+			sy, de = "parser "+pan, pan
+		case err != nil:
+			sy, de = "parse error "+shortErr(err), err.Error()
+		case got == nil:
+			sy = "parser returned nil without error"
+		default:
+			if d := diffStruct(m, e.v, reflect.ValueOf(got), m.Name); d != "" {
+				sy, de = "decoded value differs", d
+			}
+		}
+		if sy == "" {
+			return
+		}
+		where, kindS, pos := m.ID(), "model", how
+		if cut >= 0 {
+			where, kindS, pos = locate(lv, 0, cut)
+			pos = how + ", " + pos
+		}
+		var lens []int
+		for _, s := range w {
+			lens = append(lens, len(s))
+		}
+		symptom := "WireReader parse differs from the contiguous parse: " + coarse(sy)
+		addRec(&rec{Clause: "C13.seg", Where: where, Kind: kindS, Label: pos, Symptom: symptom, Ins: true,
+			Generic: kindS + " | " + pos + " | " + symptom,
+			Detail: fmt.Sprintf("%s, encoding %s parsed through enc.NewWireReader with segment lengths %v: %s %s (the contiguous BufferReader parse reproduces the value)",
+				c.describe(), hexBrief(b), lens, sy, de),
+			Replay: map[string]any{"model": m.ImportPath + "." + m.Name, "value": c.describe(), "encoded": hexBrief(b), "segment_lengths": lens},
+			ord:    c.ord})
+	}
+	if len(e.wire) > 0 {
+		parse(e.wire, "segmentation produced by Encode()", -1)
+	}
+	if n < 2 {
+		return
+	}
+	all2, all3 := segLimits(thorough)
+	if n <= all2 {
+		atomic.AddInt64(&nSegAll, 1)
+		for cut := 1; cut < n; cut++ {
+			parse(enc.Wire{b[:cut], b[cut:]}, "2 segments", cut)
+		}
+	} else {
+		atomic.AddInt64(&nSegDirected, 1)
+		set := map[int]bool{}
+		for i := 1; i <= 8; i++ {
+			set[i], set[n-i] = true, true
+		}
+		offs := map[int]bool{}
+		offsets(lv, 0, offs)
+		for o := range offs {
+			set[o-1], set[o], set[o+1] = true, true, true
+		}
+		mids(lv, 0, set)
+		for i := 1; i < 16; i++ {
+			set[n*i/16] = true
+		}
+		cuts := make([]int, 0, len(set))
+		for cut := range set {
+			if cut >= 1 && cut < n {
+				cuts = append(cuts, cut)
+			}
+		}
+		sort.Ints(cuts)
+		for _, cut := range cuts {
+			parse(enc.Wire{b[:cut], b[cut:]}, "2 segments", cut)
+		}
+	}
+	if n <= all3 {
+		atomic.AddInt64(&nSeg3, 1)
+		for c1 := 1; c1 < n-1; c1++ {
+			for c2 := c1 + 1; c2 < n; c2++ {
+				parse(enc.Wire{b[:c1], b[c1:c2], b[c2:]}, "3 segments", c1)
+			}
+		}
+	}
 }
